@@ -220,11 +220,19 @@ pub fn observe(input: &[u8], o: &Opts) -> Value {
     };
     ev["accepted"] = json!(true);
     let differing: std::cell::RefCell<Option<Vec<u8>>> = std::cell::RefCell::new(None);
+    let differing_short: std::cell::RefCell<Option<Vec<u8>>> = std::cell::RefCell::new(None);
     let r = guarded(|| -> Result<Value, Error> {
         let mut written = vec![];
         pkg.write(&mut Plain(&mut written))?;
         if written != input {
             *differing.borrow_mut() = Some(written.clone());
+        }
+        // the same object writing into a sink that takes a few bytes per call: these bytes, too, are "the bytes
+        // produced by writing the package" which the reported offsets have to describe
+        let mut short = vec![];
+        pkg.write(&mut Short(&mut short, 3))?;
+        if short != written {
+            *differing_short.borrow_mut() = Some(short);
         }
         let pkg2 = Package::parse(&mut &written[..])?;
         let reparsed_equal = pkg2.metadata == pkg.metadata && pkg2.content == pkg.content;
@@ -334,6 +342,9 @@ pub fn observe(input: &[u8], o: &Opts) -> Value {
         // the parsed object whose reported offsets must describe *them* (C16)
         ev["written_bytes"] = json!(hex(&w));
     }
+    if let Some(w) = differing_short.into_inner() {
+        ev["written_short_bytes"] = json!(hex(&w));
+    }
     ev
 }
 
@@ -343,8 +354,24 @@ pub fn observe_all(input: &[u8], o: &Opts) -> Vec<Value> {
     let mut ev = observe(input, o);
     let mut out = vec![];
     let w = ev.as_object_mut().and_then(|m| m.remove("written_bytes"));
+    let ws = ev.as_object_mut().and_then(|m| m.remove("written_short_bytes"));
     let off = ev.get("off").cloned();
     out.push(ev);
+    if let (Some(Value::String(h)), Some(off)) = (ws, off.clone()) {
+        if let Ok(bytes) = ::hex::decode(h) {
+            let mut o2 = Opts::new(&format!("shortwrite:{}", o.origin));
+            o2.off_mem = Some(rpm::PackageSegmentOffsets {
+                lead: off["lead"].as_u64().unwrap_or(0),
+                signature_header: off["sig"].as_u64().unwrap_or(0),
+                header: off["hdr"].as_u64().unwrap_or(0),
+                payload: off["payload"].as_u64().unwrap_or(0),
+            });
+            let mut e2 = observe(&bytes, &o2);
+            e2.as_object_mut().map(|m| { m.remove("written_bytes"); m.remove("written_short_bytes"); });
+            e2["content_len_mem"] = out[0]["content_len"].clone();
+            out.push(e2);
+        }
+    }
     if let (Some(Value::String(h)), Some(off)) = (w, off) {
         if let Ok(bytes) = ::hex::decode(h) {
             let mut o2 = Opts::new(&format!("rewritten:{}", o.origin));
